@@ -120,10 +120,12 @@ NOINST static void *worker_main(void *p) {
 	worker_t *w = p;
 	pthread_barrier_wait(w->bar);
 	for (int i = 0; i < w->nlines; i++) {
-		char *dup = strdup(w->lines[i]); char *av[80];
-		int ac = split(dup, av, 80);
+		char *dup = strdup(w->lines[i]);
+		size_t maxtok = strlen(dup) / 2 + 4;
+		char **av = malloc(sizeof(char *) * maxtok);
+		int ac = split(dup, av, (int)maxtok);
 		if (ac) exec_step(ac, av);
-		free(dup);
+		free(av); free(dup);
 	}
 	return NULL;
 }
@@ -288,11 +290,13 @@ int main(int argc, char **argv) {
 	char *line = NULL; size_t cap = 0; int rc = 0; long steps = 0;
 	while (getline(&line, &cap, f) > 0) {
 		if (line[0] == '#') continue;
-		char *av[400];
-		int ac = split(line, av, 400);
-		if (!ac) continue;
+		size_t maxtok = strlen(line) / 2 + 4;
+		char **av = malloc(sizeof(char *) * maxtok);
+		int ac = split(line, av, (int)maxtok);
+		if (!ac) { free(av); continue; }
 		steps++;
 		int r = exec_main_step(ac, av, f);
+		free(av);
 		if (r == 2) { rc = 2; break; }
 	}
 	free(line); fclose(f);
